@@ -27,7 +27,7 @@ type endpointConn struct {
 	closed   bool
 	closedc  chan struct{}
 	failWrites bool
-	gate     chan struct{} // native replay: writes block until the gate is closed
+	gate     chan struct{} // writes block until the gate is closed (an endpoint that is slow to take bytes)
 }
 
 func newEndpointConn(name string) *endpointConn {
@@ -78,7 +78,16 @@ func (c *endpointConn) Write(p []byte) (int, error) {
 		return 0, errBrokenConn
 	}
 	if c.gate != nil {
-		<-c.gate
+		// the endpoint is not taking bytes yet: the write waits until it does, or until the
+		// connection is closed locally, and may then turn out to have failed
+		select {
+		case <-c.gate:
+		case <-c.closedc:
+			return 0, errClosedEP
+		}
+		if c.failWrites {
+			return 0, errBrokenConn
+		}
 	}
 	c.out.Write(p)
 	return len(p), nil
